@@ -8,7 +8,7 @@ from sa.engine.cfg import normally_dominates
 from sa.engine.consts import UNKNOWN
 from sa.engine.context import Ctx
 from sa.engine.guards import atoms, path_conditions
-from sa.engine.loader import anorm, local_names, AnalysisError, dotted, norm, short, walk_own
+from sa.engine.loader import anorm, local_names, AnalysisError, dotted, norm, short, walk_own, is_noise
 from sa.engine.report import Finding, RuleReport
 from sa.rules.common import X, raised_class
 
@@ -453,7 +453,7 @@ def rule_len(ctx: Ctx) -> RuleReport:
                 rep.ok({fn: "key validation dominates all returns and block operations"})
     for fn in ("_aes_encrypt_block", "_aes_decrypt_block"):
         fi = ctx.p.func(AES, fn)
-        first = [s for s in fi.node.body if not (isinstance(s, ast.Expr) and isinstance(s.value, ast.Constant))][0]
+        first = [s for s in fi.node.body if not is_noise(s)][0]
         if isinstance(first, ast.If) and norm(first.test) == "len(block) != 16" and raised_class(first.body[-1]) == "ValueError":
             rep.ok({fn: "block length guard first"})
         else:
